@@ -1189,6 +1189,8 @@ class Standard(Output):
             invalid = np.sum(np.isnan(y), axis=1) > 0
             R[invalid, :] = -2
             num_valid = np.sum(invalid == 0)
+            if num_valid == 0:
+                verif.util.error("No valid data")
 
             # Flip the rank for positively-oriented scores
             if self._metric.orientation == 1:
